@@ -282,14 +282,24 @@ fn gen_j() -> J {
 }
 
 fn gen_json_body() -> (Vec<u8>, &'static str, Option<J>) {
-    match t::weighted(&[5, 1, 1, 1, 1]) {
+    match t::weighted(&[5, 1, 1, 1, 1, 2]) {
+        5 => {
+            // a complete, schema-valid document followed by something that is not white space: not a JSON document
+            let j = gen_j();
+            let mut text = serde_json::to_string(&j).unwrap();
+            text.push_str(t::pick(&["xyz", "]", ",", "}", "{\"id\":1,\"name\":\"m\",\"tags\":[]}", " null", "\u{0}"]));
+            (text.into_bytes(), "invalid", None)
+        }
         0 => {
             let j = gen_j();
             let mut v = serde_json::to_value(&j).unwrap();
             if j.opt.is_none() && t::chance(1, 2) {
                 v.as_object_mut().unwrap().remove("opt");
             }
-            let text = if t::chance(1, 3) { serde_json::to_string_pretty(&v).unwrap() } else { v.to_string() };
+            let mut text = if t::chance(1, 3) { serde_json::to_string_pretty(&v).unwrap() } else { v.to_string() };
+            if t::chance(1, 4) {
+                text.push_str(t::pick(&[" ", "\n", "\r\n\t "])); // trailing white space is still one document
+            }
             (text.into_bytes(), "valid", Some(j))
         }
         1 => (b"{\"id\": 1, \"name\": \"x\"".to_vec(), "invalid", None),
